@@ -1,8 +1,8 @@
-(* C03 — every produced image is a well-formed MS-CFB file by an independent checker.  Statements are printed by Check below and compared with C03.expected.  PARTIAL: the checker wf_check (spec/WfImage.v, written from MS-CFB and the property text, sharing no mechanics with the model or the library) is run on the IMPLEMENTATION's bytes after every operation of every generated history — that is the property's oracle applied directly to the code.  Theorems cover the base case (the created image of both versions is accepted), evaluated instances of the inductive step, non-triviality of the checker, and the parts of the invariant W that are proved: FAT cache = FAT on disk through reuse and growth, FAT/DIFAT markers maintained (FatInv/DifatOk), free list disjoint from FAT sectors and naming only FREE cells, removal blanks exactly the removed slot and keeps the sibling tree a search tree without red-red edges.  Also proved (proofs/WfPersist.v): THE PROPERTY FOR NAMESPACE HISTORIES - the checker accepts (all rules, 50 since the strengthening prompted by proofs/WfOpen.v) the image of every state satisfying the history invariant of C02 (PInv) with empty streams, no orphan FAT cells, an empty mini stream and blank slots outside the tree; those conditions hold of the fresh file and are kept by create_storage, create_new_stream, remove_storage, remove_stream and the metadata setters; hence for EVERY history of those calls and the queries from a fresh file of either version (up to 6000 calls) the image is well-formed, at every prefix.  Also proved (proofs/DataWf.v): THE STATIC THEOREM FOR FILES WITH STREAM DATA - the checker accepts (all rules, 50 since the strengthening prompted by proofs/WfOpen.v) the image of every state satisfying DBase (Coherent + well-formed entries + root) and DInv (the mini-stream container and MiniFAT chains exist and fit; every stream has start END_OF_CHAIN when empty, a FAT chain of EXACTLY ceil(len / sector) sectors at or above the cutoff, a MiniFAT chain of exactly ceil(len / 64) mini sectors below it; every non-FREE FAT cell and every non-FREE MiniFAT cell has exactly one owner) with a tidy directory; the old theorem for empty streams is a corollary; DInv is preserved by write-back and resize in the non-allocating cases, by growth of a large stream into reused and into appended sectors, and by shrinking a large stream (freed cells become FREE and lose their owner); wf_data_history / wf_data_history_meta: for every history of covered handle operations, queries and metadata setters on a file with data the image is well-formed at every prefix.  NOT proved: preservation of DInv by small-stream growth with mini-sector allocation, by the migrations and by removal of streams with data (evaluated on long runs and a bounded exhaustive search of set_len sequences instead), and the lift of the allocating large-stream theorems into histories. *)
+(* C03 — every produced image is a well-formed MS-CFB file by an independent checker.  Statements are printed by Check below and compared with C03.expected.  PARTIAL: the checker wf_check (spec/WfImage.v, written from MS-CFB and the property text, sharing no mechanics with the model or the library) is run on the IMPLEMENTATION's bytes after every operation of every generated history — that is the property's oracle applied directly to the code.  Theorems cover the base case (the created image of both versions is accepted), evaluated instances of the inductive step, non-triviality of the checker, and the parts of the invariant W that are proved: FAT cache = FAT on disk through reuse and growth, FAT/DIFAT markers maintained (FatInv/DifatOk), free list disjoint from FAT sectors and naming only FREE cells, removal blanks exactly the removed slot and keeps the sibling tree a search tree without red-red edges.  Also proved (proofs/WfPersist.v): THE PROPERTY FOR NAMESPACE HISTORIES - the checker accepts (all rules, 50 since the strengthening prompted by proofs/WfOpen.v) the image of every state satisfying the history invariant of C02 (PInv) with empty streams, no orphan FAT cells, an empty mini stream and blank slots outside the tree; those conditions hold of the fresh file and are kept by create_storage, create_new_stream, remove_storage, remove_stream and the metadata setters; hence for EVERY history of those calls and the queries from a fresh file of either version (up to 6000 calls) the image is well-formed, at every prefix.  Also proved (proofs/DataWf.v): THE STATIC THEOREM FOR FILES WITH STREAM DATA - the checker accepts (all rules, 50 since the strengthening prompted by proofs/WfOpen.v) the image of every state satisfying DBase (Coherent + well-formed entries + root) and DInv (the mini-stream container and MiniFAT chains exist and fit; every stream has start END_OF_CHAIN when empty, a FAT chain of EXACTLY ceil(len / sector) sectors at or above the cutoff, a MiniFAT chain of exactly ceil(len / 64) mini sectors below it; every non-FREE FAT cell and every non-FREE MiniFAT cell has exactly one owner) with a tidy directory; the old theorem for empty streams is a corollary; DInv is preserved by write-back and resize in the non-allocating cases, by growth of a large stream into reused and into appended sectors, and by shrinking a large stream (freed cells become FREE and lose their owner); wf_data_history / wf_data_history_meta: for every history of covered handle operations, queries and metadata setters on a file with data the image is well-formed at every prefix.  Also proved (proofs/DataWf2.v): the invariant W2 (C02's persistence invariant + DInv + 'every FREE cell is on the free stack', i.e. nothing leaked + tidy directory) is preserved, by a counting argument over the sectors of the file, by every large-stream operation (growth by reuse and append, release, truncation to zero, first growth, allocating writes), by truncation of a small stream to zero, by removal of large and of empty streams and by reopen; wf_data_history4: wf_check = 0 at every prefix of histories made of those operations and queries.  NOT proved: small-stream growth with mini-sector allocation, first small writes, the migrations and removal of a small stream (evaluated on long runs and a bounded exhaustive search of set_len sequences instead). *)
 From Cfb.model Require Import Base Names DirEnt State Alloc Dir Mini Store Handle Open Cfb.
 From Cfb.gen Require Import Consts.
 From Cfb.spec Require Import WfImage.
-From Cfb.proofs Require Import WfProofs CoherenceProofs ReuseProofs DirProofs WalkSafe ReadonlyTotal PersistProofs WfPersist DataWf HistoryRefine Progress.
+From Cfb.proofs Require Import WfProofs CoherenceProofs ReuseProofs DirProofs WalkSafe ReadonlyTotal PersistProofs WfPersist DataWf DataWf2 HistoryRefine Progress.
 Set Printing Width 110.
 
 (* base case, version 3 *)
@@ -202,6 +202,90 @@ Theorem C03_shrink_theorem_applies : ltac:(let t := type of DataWf.AllocExamples
 Proof. exact DataWf.AllocExamples.shrink_applies. Qed.
 Check C03_shrink_theorem_applies.
 Print Assumptions C03_shrink_theorem_applies.
+
+(* DataWf2: the persistence invariant of C02 plus exact chain lengths and coverage of non-FREE cells is DInv *)
+Theorem C03_exact_lengths_and_coverage_give_the_ownership_invariant : ltac:(let t := type of cohdata'_exact_dinv in exact t).
+Proof. exact cohdata'_exact_dinv. Qed.
+Check C03_exact_lengths_and_coverage_give_the_ownership_invariant.
+Print Assumptions C03_exact_lengths_and_coverage_give_the_ownership_invariant.
+
+(* refutation of the shortcut: a state satisfying the C02 invariant whose image the checker rejects (rule 42: a chain longer than the recorded length needs) - never produced by the model, but why DInv must be carried separately *)
+Theorem C03_persistence_invariant_alone_is_not_enough : ltac:(let t := type of DataWf2.Counter.cohtree_without_dinv in exact t).
+Proof. exact DataWf2.Counter.cohtree_without_dinv. Qed.
+Check C03_persistence_invariant_alone_is_not_enough.
+Print Assumptions C03_persistence_invariant_alone_is_not_enough.
+
+(* W2 = C02 invariant + DInv + every FREE cell is on the free stack (nothing leaked) + tidy directory *)
+Theorem C03_w2_states_have_accepted_images : ltac:(let t := type of w2_image_wf in exact t).
+Proof. exact w2_image_wf. Qed.
+Check C03_w2_states_have_accepted_images.
+Print Assumptions C03_w2_states_have_accepted_images.
+
+(* by a counting (pigeonhole) argument over [0, nsect) *)
+Theorem C03_release_keeps_ownership_and_leaks_nothing : ltac:(let t := type of resize_big_release_dinv in exact t).
+Proof. exact resize_big_release_dinv. Qed.
+Check C03_release_keeps_ownership_and_leaks_nothing.
+Print Assumptions C03_release_keeps_ownership_and_leaks_nothing.
+
+(* large stream to length 0: the whole chain returns to the free stack *)
+Theorem C03_truncation_to_zero_keeps_it : ltac:(let t := type of resize_big_to_zero_dinv in exact t).
+Proof. exact resize_big_to_zero_dinv. Qed.
+Check C03_truncation_to_zero_keeps_it.
+Print Assumptions C03_truncation_to_zero_keeps_it.
+
+(* a new chain from the free stack *)
+Theorem C03_first_growth_of_an_empty_stream_keeps_it : ltac:(let t := type of resize_empty_big_dinv in exact t).
+Proof. exact resize_empty_big_dinv. Qed.
+Check C03_first_growth_of_an_empty_stream_keeps_it.
+Print Assumptions C03_first_growth_of_an_empty_stream_keeps_it.
+
+(* growth by write-back *)
+Theorem C03_writes_that_take_free_sectors_keep_it : ltac:(let t := type of write_big_alloc_dinv in exact t).
+Proof. exact write_big_alloc_dinv. Qed.
+Check C03_writes_that_take_free_sectors_keep_it.
+Print Assumptions C03_writes_that_take_free_sectors_keep_it.
+
+(* a small stream gives its mini chain back; MiniFAT trimmed *)
+Theorem C03_small_truncation_to_zero_keeps_it : ltac:(let t := type of resize_small_to_zero_dinv in exact t).
+Proof. exact resize_small_to_zero_dinv. Qed.
+Check C03_small_truncation_to_zero_keeps_it.
+Print Assumptions C03_small_truncation_to_zero_keeps_it.
+
+(* remove_stream on a stream with a regular chain: W2 afterwards (chain on the free stack, slot blank, directory tidy) *)
+Theorem C03_removal_of_a_large_stream_keeps_it : ltac:(let t := type of remove_big_stream_w2 in exact t).
+Proof. exact remove_big_stream_w2. Qed.
+Check C03_removal_of_a_large_stream_keeps_it.
+Print Assumptions C03_removal_of_a_large_stream_keeps_it.
+
+(* remove_stream on an empty stream in a file with data *)
+Theorem C03_removal_of_an_empty_stream_keeps_it : ltac:(let t := type of remove_empty_stream_w2 in exact t).
+Proof. exact remove_empty_stream_w2. Qed.
+Check C03_removal_of_an_empty_stream_keeps_it.
+Print Assumptions C03_removal_of_an_empty_stream_keeps_it.
+
+(* reopen may occur inside histories *)
+Theorem C03_reopened_state_keeps_it : ltac:(let t := type of w2_reopened in exact t).
+Proof. exact w2_reopened. Qed.
+Check C03_reopened_state_keeps_it.
+Print Assumptions C03_reopened_state_keeps_it.
+
+(* for EVERY history of handle operations in the covered cases (growth by reuse / append, release, truncation to zero of large and small streams, first growth, allocating writes), removal of large and empty streams, reopen and queries: wf_check = 0 at every prefix *)
+Theorem C03_images_of_data_histories_with_allocation_release_and_removal : ltac:(let t := type of wf_data_history4 in exact t).
+Proof. exact wf_data_history4. Qed.
+Check C03_images_of_data_histories_with_allocation_release_and_removal.
+Print Assumptions C03_images_of_data_histories_with_allocation_release_and_removal.
+
+(* non-vacuity: append growth, removal of a 12-sector stream, reopen, a query *)
+Theorem C03_data_history_example_with_removal : ltac:(let t := type of DataWf2.Example8.hist5_wf in exact t).
+Proof. exact DataWf2.Example8.hist5_wf. Qed.
+Check C03_data_history_example_with_removal.
+Print Assumptions C03_data_history_example_with_removal.
+
+(* non-vacuity: a 100-byte stream truncated to zero, reopen *)
+Theorem C03_data_history_example_small_truncation : ltac:(let t := type of DataWf2.Example9.hist6_wf in exact t).
+Proof. exact DataWf2.Example9.hist6_wf. Qed.
+Check C03_data_history_example_small_truncation.
+Print Assumptions C03_data_history_example_small_truncation.
 
 (* EVALUATION (not the general claim): all set_len sequences of depth 2 over {0,64,100,4095,4096,5000,9000} on two streams give accepted images *)
 Theorem C03_bounded_exhaustive_set_len_search : ltac:(let t := type of DataWf.Evaluated.explore2_v3 in exact t).
